@@ -9,6 +9,12 @@ CLAIMED = {
  "C09": ("c09", "Rocq/Coq proof over an executable model of LRUCache+CachedMatrix: for every history of operations (any matrix size, any capacity) the cache invariant (capacity bound, exact size accounting, LRU list = cached lines, every cached cell = true entry under the current variable order, no undefined list access), correctness of returned rows, transposition semantics of flips and the two-rows clause are theorems (Properties_C09.v, axiom-free). The model is tied to /repo on every run by executing the extracted model and the freshly compiled C++ on the same random operation histories and comparing every observable (returned rows, size(), cachedLines(), lineLength, listIndex order, all cached cells); an independent spec monitor turns a disagreement into a concrete failing history.",
          "Trusted: Coq kernel, extraction (ExtrOcamlBasic), OCaml driver, C++ harness (synthetic base matrix), generators. Modelled, not verified: real new[]/delete[] (ASan build of the same harness in the thorough tier is supporting evidence only), boost::intrusive list. Derived matrices (Precomputed/Regularized/Modified/...) are covered by the C09 derived-matrix monitor only where stated in DESIGN.md.",
          "Coq proof (invariant by induction over operation histories, refinement to the permuted matrix) + extracted-model/implementation correspondence"),
+ "C03": ("c03", "Rocq/Coq proof over an executable list-of-batches model of Data/LabeledData: batch-size arithmetic (sum, bounds, +-1), every structural operation keeps the element sequence exactly as documented (create, repartition, splitBatch, splice, append, reorderElements=gather, shuffle=permutation, indexedSubset, splitAtElement, transform), and inputs are never separated from labels (naturality of every operation w.r.t. element-wise maps => the two containers of a LabeledData stay the projections of one dataset of pairs). Theorems are axiom-free and hold for all element types, sizes and arguments. Tie: extracted model vs. freshly compiled shark::LabeledData<RealVector|unsigned|CompressedRealVector,unsigned> on random operation histories over 4 registers (ids as elements, exact comparison); library-internal random choices are read back and passed to the model explicitly. Iterator advance, repartitionByClass order, binarySubProblem, view->dataset are modelled and compared but not proved (partial).",
+         "Trusted: Coq kernel, extraction, OCaml driver, C++ harness, generators. Modelled not verified: std::shuffle, shared_ptr batch sharing (harness calls makeIndependent where the API demands it), Boost iterators.",
+         "Coq proof (list model, naturality/parametricity for pairing) + extracted-model/implementation correspondence on operation histories"),
+ "C12": ("c03.py --prop C12", "Rocq/Coq proof on the C03 dataset model: batchPartitioning + CVFolds read out exactly the consecutive slices of the reorganised element list with the requested validation sizes (validation parts disjoint and exhaustive), same-size folds differ by at most one, training part = complement (permutation theorem), createCVIndexed puts each element into exactly the requested fold in original order, batch sizes within [1,max]; for all datasets, fold counts, batch sizes, shuffles, index vectors. Tie: extracted model vs. all six createCV* functions of /repo on random datasets (dense, unsigned, sparse) with the drawn permutations read back; spec monitor checks partition/complement/size/balance/index membership/shape on the implementation output. Class balance of createCVSameSizeBalanced and element-shape preservation are monitored, not proved (partial).",
+         "Trusted: as C03. The element shape is not part of the Coq model (compared in the correspondence run).",
+         "Coq proof (slices lemma by induction over partitions) + extracted-model/implementation correspondence"),
 }
 
 REASONS_TODO = "not claimed yet in this revision: the Coq model and its correspondence check for this property are still being built (see DESIGN.md section 3); no check is registered so nothing is asserted about it"
@@ -20,10 +26,10 @@ def main():
             script, text, note, tech = CLAIMED[pid]
             checks.append({
                 "property_id": pid,
-                "quick_cmd": "python3 tools/%s.py --tier quick" % script,
-                "thorough_cmd": "python3 tools/%s.py --tier thorough" % script,
+                "quick_cmd": "python3 tools/%s --tier quick" % (script if ".py" in script else script + ".py"),
+                "thorough_cmd": "python3 tools/%s --tier thorough" % (script if ".py" in script else script + ".py"),
                 "evidence_file": "evidence/%s.json" % pid,
-                "replay_cmd_template": "python3 tools/%s.py --replay {path}" % script,
+                "replay_cmd_template": "python3 tools/%s --replay {path}" % (script if ".py" in script else script + ".py"),
                 "engine": "coq+correspondence",
                 "level_claimed": {"category": "proof", "text": text, "design_ref": "DESIGN.md#" + pid},
                 "level_note": note,
